@@ -4,6 +4,7 @@
 package main
 
 import (
+	"fmt"
 	"os"
 	"sort"
 	"strings"
@@ -42,6 +43,8 @@ func (g *gen) request(targets []string, mode int) *Req {
 	k := 1 + r.Pick(5, 3, 2)
 	if r.Chance(1, 50) {
 		k = 0
+	} else if r.Chance(1, 30) {
+		k = 4 + r.Intn(4)
 	}
 	for i := 0; i < k; i++ {
 		if r.Chance(1, 25) {
@@ -332,6 +335,45 @@ func siblingCases(emit func(Case)) int {
 	return n
 }
 
+// deepCases: index paths longer than path.ToStrings' capacity constant (20): two
+// leaves that differ only in the 24th string, subscriptions naming one of them,
+// a glob in the middle, the common prefix.
+func deepCases(emit func(Case)) int {
+	var deep []Elem
+	for i := 0; i < 11; i++ {
+		deep = append(deep, el("n", "k", fmt.Sprint(i)))
+	}
+	leaf := func(last string) []Elem { return append(append([]Elem{}, deep...), el("z"), el(last)) }
+	var init []Step
+	for i, last := range []string{"x", "y"} {
+		init = append(init, Step{K: "update", N: &Noti{TS: int64(i + 1), Prefix: GPath{Target: "t1"},
+			Upds: []Upd{{Path: GPath{Elems: leaf(last)}, Val: int64(i)}}}})
+	}
+	glob := leaf("x")
+	glob[5] = el("n", "k", "*")
+	subs := [][]Elem{leaf("x"), leaf("y"), deep, glob, append(append([]Elem{}, deep...), el("z"), el("*"))}
+	n := 0
+	for _, sp := range subs {
+		for _, mode := range []int{1, 2} {
+			for split := 0; split < 2; split++ {
+				pf := &GPath{Target: "t1"}
+				p := &GPath{Elems: sp}
+				if split == 1 {
+					pf.Elems, p.Elems = sp[:3], sp[3:]
+				}
+				c := Case{Targets: []string{"t1"}, Req: &Req{HasSub: true, Prefix: pf, Mode: mode, Subs: []*GPath{p}}}
+				c.Ops = append(append([]Step{}, init...), Step{K: "sub"})
+				if mode == 2 {
+					c.Ops = append(c.Ops, Step{K: "poll"})
+				}
+				emit(c)
+				n++
+			}
+		}
+	}
+	return n
+}
+
 func familyOf(base string, c Case) string {
 	for _, o := range c.Ops {
 		if o.Burst != 0 {
@@ -358,7 +400,7 @@ func nontrivial(c *Case) bool {
 func main() {
 	o := vh.ParseFlags()
 	quietLogs()
-	meta := vh.NewMeta("corpus cases; grid: one fixed two-target cache (origins, keyed element, atomic container), every ONCE query path over {a,b,*} of length 0..3 x origin placement {none, prefix oc, path oc, prefix foo, first element in the prefix} x target {t1,*}; sibling-prefix: 32 ONCE/POLL requests with two paths related as strings but not as paths (a/b & a/bb, b[k=1] & b[k=10], a & ab; both orders); random: 1-3 targets, 2-10 initial notifications (single/multi update, atomic, delete, keyed elements, origins in prefix or path), one request (ONCE/POLL/few STREAM; 1-3 subscription paths of length 0..3 with globs at any position, origins in prefix/path incl. conflicts, missing path/prefix/target, unknown target, updates_only), POLL: 0-3 triggers with 0-2 cache edits (updates, deletes, target removal) before each; in 1/6 of the ONCE/POLL cases the walk is overlapped by 2-6 concurrent single-update/delete writes (one writer goroutine per target), judged by the weak clause; half of the ONCE/POLL cases are perturbed at a schedule point of the coalescing queue: producers yield ~40us at insert:checked (so that the sender can drain and park between Insert's checks and the locked insert) or the consumer yields ~150us at next:empty (so that the walker can insert the rest and close the queue before the sender selects); idle-timeout: 22 (thorough 160) POLL/STREAM scripts on a server with WithTimeout(100ms) in which the client idles 320 ms after a received sync before the next trigger / update / EOF; target-churn: 120 (thorough 1500) ONCE/POLL scripts, 80% on target *, whose walks (initial and poll rounds) are overlapped by a loop of Cache.Remove/Cache.Add of a spare target plus 0-2 leaf writes. in every generated family (not corpus): with small probability a target and/or the deprecated element list on subscription paths, ignored request fields (Subscription.mode/sample_interval/heartbeat/suppress_redundant, qos, allow_aggregation, use_models, encoding, extension) and another construction of the server (options permuted, nil options interleaved, WithStats/WithFlowControlTest/stats hooks/explicit default timeout added). distinct = distinct inputs; non-trivial = the RPC ended OK and at least one update was delivered")
+	meta := vh.NewMeta("corpus cases; grid: one fixed two-target cache (origins, keyed element, atomic container), every ONCE query path over {a,b,*} of length 0..3 x origin placement {none, prefix oc, path oc, prefix foo, first element in the prefix} x target {t1,*}; deep-paths: 20 ONCE/POLL requests on index paths of 24 strings (beyond ToStrings' capacity constant 20) differing only at the end; sibling-prefix: 32 ONCE/POLL requests with two paths related as strings but not as paths (a/b & a/bb, b[k=1] & b[k=10], a & ab; both orders); random: 1-3 targets, 2-10 initial notifications (single/multi update, atomic, delete, keyed elements, origins in prefix or path), one request (ONCE/POLL/few STREAM; 1-3 subscription paths of length 0..3 with globs at any position, origins in prefix/path incl. conflicts, missing path/prefix/target, unknown target, updates_only), POLL: 0-3 triggers with 0-2 cache edits (updates, deletes, target removal) before each; in 1/6 of the ONCE/POLL cases the walk is overlapped by 2-6 concurrent single-update/delete writes (one writer goroutine per target), judged by the weak clause; half of the ONCE/POLL cases are perturbed at a schedule point of the coalescing queue: producers yield ~40us at insert:checked (so that the sender can drain and park between Insert's checks and the locked insert) or the consumer yields ~150us at next:empty (so that the walker can insert the rest and close the queue before the sender selects); idle-timeout: 22 (thorough 160) POLL/STREAM scripts on a server with WithTimeout(100ms) in which the client idles 320 ms after a received sync before the next trigger / update / EOF; target-churn: 120 (thorough 1500) ONCE/POLL scripts, 80% on target *, whose walks (initial and poll rounds) are overlapped by a loop of Cache.Remove/Cache.Add of a spare target plus 0-2 leaf writes. in every generated family (not corpus): with small probability a target and/or the deprecated element list on subscription paths, ignored request fields (Subscription.mode/sample_interval/heartbeat/suppress_redundant, qos, allow_aggregation, use_models, encoding, extension) and another construction of the server (options permuted, nil options interleaved, WithStats/WithFlowControlTest/stats hooks/explicit default timeout added). distinct = distinct inputs; non-trivial = the RPC ended OK and at least one update was delivered")
 	e := &emitter{dir: o.Out, cf: newCaseFile(), meta: meta, limit: 255, require: "Subscribe.C05Check", nontriv: nontrivial}
 
 	if o.Replay == "" {
@@ -400,6 +442,7 @@ func main() {
 	}
 	ng := gridCases(func(c Case) { e.add("grid", c) })
 	meta.Extra["grid_cases"] = ng
+	meta.Extra["deep_cases"] = deepCases(func(c Case) { e.add("deep-paths", c) })
 	meta.Extra["sibling_cases"] = siblingCases(func(c Case) { e.add("sibling-prefix", c) })
 
 	r := vh.NewRand(o.Seed)
